@@ -15,31 +15,31 @@ CHECKS = {
  "C04": ("exploration", "ledger auditor: after every op of random ledger histories (forks, ties, reorganisations, held/late blocks, duplicates, invalid blocks, truncation + regrowth) every query of the statement is compared with a tree model, on the live instance and on a reopened twin",
          "Runtime monitor against an executable tree model over thousands of operations; held on what was explored.",
          "Trusted: the tree model (refmodel/tree.go); the ledger does not validate transaction contents, bodies are arbitrary signed transfers.", "DESIGN.md §3 C04"),
- "C03": ("exploration", "admission oracle + pool-validity auditor: every DoTx / submission result in random histories with conflict families and hostile variants is compared both ways with a statement-level model of chain(tip)+pool; after every op the pool must be explainable as a sequential extension of the model state",
+ "C03": ("exploration", "admission oracle + pool-validity auditor: every DoTx / submission result in random histories with conflict families and hostile variants is compared both ways with a statement-level model of chain(tip)+pool; peer blocks carrying conflict families / inadmissible transactions (applied through Play and through Walk, the engine's path) must be refused; peer blocks also arrive through the engine's real Miner.ProcBlock; after every op the pool must be explainable as a sequential extension of the model state",
          "Runtime monitor with an implementation-independent admission model over thousands of operations; held on what was explored (two PlayAndRepost-with-pool defects are listed as known findings).",
          "Trusted: the statement-level model (refmodel/state.go); signatures / ACL / contract re-execution are other properties.", "DESIGN.md §3 C03"),
- "C05": ("fault_enumeration", "live-vs-reopened twin comparison after every op + no-trace oracle (stored bytes and all answers unchanged) after ops built to fail at named stages, incl. valid ops whose k-th storage write is failed by the interposed storage engine",
+ "C05": ("fault_enumeration", "live-vs-reopened twin comparison after every op + no-trace oracle (stored bytes and all answers unchanged) after ops built to fail at named stages (refused blocks, junk blocks played or walked to - incl. blocks that conflict with the pool and fail verification -, one-step failed walks judged with the pool included), incl. valid ops (confirm, play, walk, own block, pool admission, the engine's ProcBlock) whose k-th storage write is failed by the interposed storage engine",
          "Runtime fault injection at the storage-write boundary and at every named failure stage, over random histories; the k of 'fail write k' is drawn from the measured write count of each op (sampled, not exhaustive per op; the thorough tier enumerates more).",
          "Trusted: verifmem (single Put/Delete and Batch.Write fail or apply atomically). Faults below the kvdb boundary are out of reach.", "DESIGN.md §3 C05"),
  "C06": ("fault_enumeration", "crash-point enumeration: the interposed storage engine logs every atomic write of both databases; for every prefix of the write sequence of each scenario the crash image is rebuilt, opened, audited (ledger invariants, state == canon(pointer)+pool, conservation model), resynchronised to the ledger tip and audited again",
          "Exhaustive over the write-prefix space of each generated scenario (dozens of scenarios in quick, >1000 in thorough); scenarios themselves are sampled.",
          "Trusted: one kvdb Put/Delete/Batch.Write is atomic and durable (leveldb's contract), modelled by verifmem; crashes inside one write are out of reach.", "DESIGN.md §3 C06"),
- "C17": ("exploration", "max-monotone model of the irreversible height updated on every applied block, compared with GetMeta after every op / reopen of random histories with windows 0,1,2,3,5; every non-pruning walk is checked to keep finalised blocks on the state's chain, to be refused iff it would undo one",
+ "C17": ("exploration", "max-monotone model of the irreversible height updated on every applied block, compared with GetMeta after every op / reopen of random histories with windows 0,1,2,3,5; every non-pruning walk (also the engine's ProcBlock) is checked to keep finalised blocks on the state's chain, to be refused iff it would undo one; operations failing part of the way (junk blocks, storage write errors, also right after own blocks) are part of the histories",
          "Runtime monitor with an executable model over thousands of operations incl. deliberate attempts to cross the finalised height; held on what was explored.",
          "Trusted: the 40-line model in cmd/c17; the window never changes at this commit.", "DESIGN.md §3 C17"),
  "C18": ("exploration", "recorded-answer oracle: what the live reader answered when B was the tip (recorded on a history-free node) vs CreateSnapshot(B) / CreateXMSnapshotReader(B) / tip readers for every (chain block, key) after every synchronised op of key-heavy histories with reorganisations and pending pool writes",
          "Runtime differential monitor over ~60k snapshot reads per quick run; held on what was explored.",
          "Trusted: the recording node runs the same xmodel live-read code (C01/C03 cover it independently).", "DESIGN.md §3 C18"),
- "C13": ("exploration", "producer-vs-replica differential + pool-order oracle: pools of dependent / key-sharing / oversized / timer-triggering transactions; GetUnconfirmedTx sampled 8x per pool (producer<consumer, reader<overwriter); block packed as miner.packBlock does, VerifyBlock / IsValidTx, two replicas that never saw the pool (confirm+Walk, confirm+Play) vs producer (PlayForMiner): all observables equal",
+ "C13": ("exploration", "producer-vs-replica differential + pool-order oracle: pools of dependent / key-sharing / oversized / timer-triggering transactions; GetUnconfirmedTx sampled 8x per pool (producer<consumer, reader<overwriter); block packed by the engine's real miner.packBlock, VerifyBlock / IsValidTx, two replicas that never saw the pool (confirm+Walk, confirm+Play) vs producer (real confirmBlockForMiner): all observables equal; marathon: one long-lived producer mines 22-27 consecutive blocks (pool refilled with children of left-behind transactions, mixed sizes, decaying award, confirmed transactions submitted again), every block goes through the real Miner.ProcBlock of a long-lived follower (restarted now and then) and of a cold twin, producer == follower after every block",
          "Runtime differential monitor over hundreds (quick) / thousands (thorough) of pools; held on what was explored; one timer-transaction defect is a known finding.",
          "Blocks are assembled by the engine's real miner.packBlock / confirmBlockForMiner and received through the real Miner.ProcBlock (verif export shims, null consensus); Go map iteration randomness is sampled, not enumerated.", "DESIGN.md §3 C13"),
- "C12": ("exploration", "lock-protocol holder-table monitor on the SpinLock API under stress + free-running concurrent rounds on a real node (conflict families, selectors, concurrent Play) under the Go race detector; each round's call/return history is checked for an explaining sequential order with porcupine against the statement-level model, plus contention-refusal, selection-disjointness and quiescent-state (pool validity, conservation, canon, live==twin) auditors",
+ "C12": ("exploration", "lock-protocol holder-table monitor on the SpinLock API under stress + free-running concurrent rounds on a real node (conflict families, selectors, concurrent Play and concurrent Walk with its asynchronous pool re-admission, balance queries on cold caches; every second round with seeded storage-latency jitter) under the Go race detector; each round's call/return history is checked for an explaining sequential order with porcupine against the statement-level model, plus contention-refusal, selection-disjointness and quiescent-state (pool validity, conservation, canon, live==twin) auditors",
          "Runtime monitoring of real concurrent executions (hundreds of rounds quick, thousands thorough) with an offline linearizability check per round; interleavings are those the scheduler produced, not an enumeration.",
          "Trusted: porcupine v1.3.0; the statement-level model; race reports count only when both frames lie in spin_lock.go / utxo.go / utxo_cache.go / xmodel.go / state.go.", "DESIGN.md §3 C12"),
- "C14": ("exploration", "vote-counting model vs DefaultSaftyRules.CheckProposal / CheckVote / CalVotesThreshold over all multisets of signature entries (valid / repeated / non-member / wrong id / damaged / key mismatch, real ECDSA signatures) for n<=4 exhaustively and sampled for n=5..10; the same certificates through tdpos / xpoa CheckMinerMatch over a stub ledger with three validator sets; vote streams into a real Smr collector",
+ "C14": ("exploration", "vote-counting model vs DefaultSaftyRules.CheckProposal / CheckVote / CalVotesThreshold over all multisets of signature entries (valid / repeated / non-member / wrong id / damaged / key mismatch, real ECDSA signatures) for n<=4 exhaustively and sampled for n=5..10; the same certificates through tdpos / xpoa CheckMinerMatch over a stub ledger with three validator sets; vote streams into a real Smr collector (sequential, and eight simultaneous copies of one member's vote); weak certificates over every stored proposal through the real proposal handler after honest chains have moved the root",
          "Exhaustive over the small-n box (recorded in coverage.exhaustive_box), sampled beyond; runtime oracle = executable model written from the statement.",
          "Trusted: the 140-line vote-counting model (cmd/c14/model.go); ECDSA / SHA-256.", "DESIGN.md §3 C14"),
- "C07": ("exploration", "schema-walk mutation monitor: every single-field mutant (and boundary shift) of a corpus of accepted transactions of all forms is verified with the id kept and with the id recomputed; signature attacks (swap, replay, foreign key, dropped signer + re-sign); digest grouping for injectivity; (false,nil) and panic detection",
+ "C07": ("exploration", "schema-walk mutation monitor: every single-field mutant (and boundary shift) of a corpus of accepted transactions of all forms is verified with the id kept and with the id recomputed; signature attacks (swap, replay, foreign key, dropped / repeated signer + re-sign, outputs of rule-less account names, unsigned transfers carrying the autogen / coinbase flag); block-path oracle: a sample of covered-field mutants arrives inside a well-formed peer block under the original id, with / without the original in the pool, applied through Walk or Play on a twin; digest grouping for injectivity; (false,nil) and panic detection; corpus = 10 hand-built forms + transactions drawn by the block generator",
          "Runtime oracle over ~4.5k verifications of ~2.2k mutants of 10 accepted transactions; complete for single-field edits of these transactions, not for 'all transactions'.",
          "Trusted: ECDSA P-256 / SHA-256; the explicit uncovered-field set {txid, blockid, received_timestamp, modify_block, HD_info for v1}.", "DESIGN.md §3 C07"),
  "C08": ("exploration", "schema-walk mutation monitor on node-formatted blocks (1..17 transactions, with / without certificate, failed-tx map, target bits): every single-field mutant as is and with the id recomputed, body edits (insert fresh / duplicate at every position, drop, swap, replace; merkle field recomputed or not), re-signing with another key",
@@ -48,7 +48,7 @@ CHECKS = {
  "C15": ("exploration", "structural-invariant monitor on the real Smr / QCPendingTree (real InitQCTree over a stub ledger, real signed proposal / vote messages through the synchronous handler shims): audit after every call of every history - every labelled rooted tree on n <= 6 proposals x every arrival order as confirmed blocks, n <= 5 through the proposal handler in three interleavings, every single duplicate, every single rollback position, vote patterns at every gap; random histories of 3-12 proposals (shape styles, disorder levels, gapped views, weak justifies, member / own votes, enforce, undelivered parents, restart forms); oracle: accepted proposals stored exactly once and in the right place, HighQC view monotone except by rollback and only to certified stored proposals, markers = ancestors 1/2/3 when set, root moves only to a descendant; thorough adds free-running concurrent handlers (real Start loop + ledger goroutine) audited at quiescence and a -race child",
          "Exhaustive over the small-n boxes (75k histories, 1.0M audited calls per quick run; n <= 7 / 1.1M histories thorough), sampled beyond; concurrent interleavings are those the scheduler produced.",
          "Trusted: the tree model and auditor in cmd/c15/model.go; stub ledger; allowed: lazy eviction of proposals that can no longer descend from the root, commit with too few ancestors is a no-op, CommitQC == Root initially. Two open findings (stale markers; unsynchronised tree under concurrent handlers).", "DESIGN.md §3 C15"),
- "C16": ("exploration", "per-millisecond tiling audit of the tdpos / xpoa slot schedules over a parameter box + random configurations, acceptance matrix through the public CheckMinerMatch of real tdpos / xpoa / single / pow instances over stub ledgers (every validator, outsider, empty proposer, slot edges), PoW IsProofed / retarget against an independent Bitcoin-style model, compact encoding against an independent codec",
+ "C16": ("exploration", "per-millisecond tiling audit of the tdpos / xpoa slot schedules over a parameter box + random configurations, acceptance matrix through the public CheckMinerMatch of real tdpos / xpoa / single / pow instances over stub ledgers (every validator, outsider, empty proposer, slot edges), PoW IsProofed / retarget against an independent Bitcoin-style model, PoW forks judged by a long-lived instance vs a fresh one (differential), restarts of the pluggable consensus after upgrades (the latest consensus must judge), compact encoding against an independent codec",
          "Exhaustive over the small configuration box (every ms of 3 terms), sampled beyond; ~13M evaluations per quick run.",
          "Trusted: the relational tiling auditor and the independent retarget / compact implementations in cmd/c16; stub ledger / contract objects.", "DESIGN.md §3 C16"),
  "C09": ("exploration", "three-way agreement monitor: random $verif kernel-contract programs (get/put/del/scan/event/resource use/nested calls/contract transfers/failures) over growing prior states on a gas-charging chain: pre-execution (no trace) -> signed transaction -> VerifyTx -> DoTx -> state delta == write set and declared outputs -> block replay; tamper oracle over schema-walk mutants of read set / write set / requests / fee / token outputs, re-signed",
